@@ -100,6 +100,7 @@ variable {M : Type} {o : MapOps M} {c : Cfg}
 without being held, the pairs in `xh` may be held without being booked (and are not booked) -/
 
 structure InvX (o : MapOps M) (c : Cfg) (xb xt : Option (Str × Str)) (xh : List (Str × Str)) (s : St M) : Prop where
+  tu    : AMap.Uniq s.timers
   recs  : ∀ n r, o.get s.locks n = some r → RecOk c s.nreq r
   qsize : ∀ n r, o.get s.locks n = some r → ∀ p ∈ r.q, p.size = r.size
   timer : ∀ tk tm, (tk, tm) ∈ s.timers →
@@ -126,7 +127,8 @@ structure Equiv (o : MapOps M) (s s' : St M) : Prop where
 theorem InvX.congr {xb xt xh} {s s' : St M} (h : InvX o c xb xt xh s) (e : Equiv o s s') : InvX o c xb xt xh s' := by
   have hheld : ∀ n k, held o s' n k ↔ held o s n k := by intro n k; unfold held; rw [e.locks]
   have hbook : ∀ sid x, booked s' sid x ↔ booked s sid x := fun sid x => booked_congr e.sessions sid x
-  refine ⟨?_, ?_, ?_, ?_, ?_, ?_, ?_, ?_, ?_, ?_⟩
+  refine ⟨?_, ?_, ?_, ?_, ?_, ?_, ?_, ?_, ?_, ?_, ?_⟩
+  · rw [e.timers]; exact h.tu
   · intro n r hg; rw [e.locks] at hg; rw [e.nreq]; exact h.recs n r hg
   · intro n r hg; rw [e.locks] at hg; exact h.qsize n r hg
   · intro tk tm hm; rw [e.timers] at hm; rw [hheld]; exact h.timer tk tm hm
@@ -140,12 +142,12 @@ theorem InvX.congr {xb xt xh} {s s' : St M} (h : InvX o c xb xt xh s) (e : Equiv
 
 /-- weakening the exemptions -/
 theorem InvX.weaken_t {xb xt xh} {s : St M} (h : InvX o c xb none xh s) : InvX o c xb xt xh s :=
-  ⟨h.recs, h.qsize,
+  ⟨h.tu, h.recs, h.qsize,
    fun tk tm hm => ⟨(h.timer tk tm hm).1, (h.timer tk tm hm).2.elim Or.inl (fun x => by cases x)⟩,
    h.bh, h.u1, h.u2, h.hb, h.xhfree, h.xhheld, h.fs⟩
 
 theorem InvX.weaken_b {xb xt xh} {s : St M} (h : InvX o c none xt xh s) : InvX o c xb xt xh s :=
-  ⟨h.recs, h.qsize, h.timer,
+  ⟨h.tu, h.recs, h.qsize, h.timer,
    fun sid x hbk => (h.bh sid x hbk).elim Or.inl (fun x => by cases x),
    h.u1, h.u2, h.hb, h.xhfree, h.xhheld, h.fs⟩
 
@@ -156,7 +158,8 @@ theorem InvX.frame {xb xt xh} {s s' : St M} (h : InvX o c xb xt xh s)
     (e4 : s'.file = s.file) (e5 : s.nreq ≤ s'.nreq) : InvX o c xb xt xh s' := by
   have hheld : ∀ n k, held o s' n k ↔ held o s n k := fun n k => held_congr e1 n k
   have hbook : ∀ sid x, booked s' sid x ↔ booked s sid x := fun sid x => booked_congr e3 sid x
-  refine ⟨?_, ?_, ?_, ?_, ?_, ?_, ?_, ?_, ?_, ?_⟩
+  refine ⟨?_, ?_, ?_, ?_, ?_, ?_, ?_, ?_, ?_, ?_, ?_⟩
+  · rw [e2]; exact h.tu
   · intro n r hg; rw [e1] at hg
     have := h.recs n r hg
     exact ⟨this.nodup, fun k hk => by obtain ⟨i, hi, e⟩ := this.fresh k hk; exact ⟨i, by omega, e⟩⟩
@@ -205,6 +208,15 @@ theorem sessions_book (s : St M) (sid : Sid) (n k : Str) (sz : Int) (lt : Option
       AMap.set s.sessions sid (((AMap.get s.sessions sid).getD []) ++ [⟨n, k, sz⟩]) := by
   unfold book; rw [sessions_arm]; rfl
 
+theorem uniq_timers_book (s : St M) (sid : Sid) (n k : Str) (sz : Int) (lt : Option Int)
+    (h : AMap.Uniq s.timers) : AMap.Uniq (book s sid n k sz lt).timers := by
+  unfold book arm
+  split
+  · split
+    · exact AMap.uniq_set _ _ _ h
+    · exact h
+  · exact h
+
 /-- granting key `k` of lock `n` (new request or queued call): write the record with the key
 appended, book it, arm the lease -/
 theorem InvX.grant (ho : o.Lawful) {xb xt xh} {s s1 : St M} (h : InvX o c xb xt xh s)
@@ -245,7 +257,8 @@ theorem InvX.grant (ho : o.Lawful) {xb xt xh} {s s1 : St M} (h : InvX o c xb xt 
       rw [e1] at hg; rw [e2] at hkk
       exact hknew ((hheld k).mp ⟨r0, hg, hkk⟩)
     · rw [hp] at hx; exact hxb hx
-  refine ⟨?_, ?_, ?_, ?_, ?_, ?_, ?_, ?_, ?_, ?_⟩
+  refine ⟨?_, ?_, ?_, ?_, ?_, ?_, ?_, ?_, ?_, ?_, ?_⟩
+  · exact uniq_timers_book _ _ _ _ _ _ (by rw [ht]; exact h.tu)
   · intro n' r hg
     rw [nreq_book]
     rw [hlocks] at hg
@@ -356,7 +369,8 @@ theorem InvX.setSame (ho : o.Lawful) {xb xt xh} {s s1 : St M} (h : InvX o c xb x
     · subst e; simp [hkeys]
     · simp [e]
   have hbk : ∀ sid x, booked s1 sid x ↔ booked s sid x := fun sid x => booked_congr hs sid x
-  refine ⟨?_, ?_, ?_, ?_, ?_, ?_, ?_, ?_, ?_, ?_⟩
+  refine ⟨?_, ?_, ?_, ?_, ?_, ?_, ?_, ?_, ?_, ?_, ?_⟩
+  · rw [ht]; exact h.tu
   · intro n' r hg; rw [hl] at hg
     rcases get_set_cases ho hg with ⟨_, e⟩ | hg'
     · rw [e]; exact hok
@@ -425,7 +439,8 @@ theorem InvX.unkey (ho : o.Lawful) {xb' xt' xh} {s s1 : St M} (h : InvX o c none
     have hsub : (allKeys r').Sublist (allKeys r0) := by
       unfold allKeys; rw [hkeys, hq]; exact List.Sublist.append (List.erase_sublist) (List.Sublist.refl _)
     exact ⟨hr0.nodup.sublist hsub, fun k' hk' => hr0.fresh k' (hsub.subset hk')⟩
-  refine ⟨⟨?_, ?_, ?_, ?_, ?_, ?_, ?_, ?_, ?_, ?_⟩, ?_⟩
+  refine ⟨⟨?_, ?_, ?_, ?_, ?_, ?_, ?_, ?_, ?_, ?_, ?_⟩, ?_⟩
+  · rw [ht]; exact h.tu
   · intro n' r hg; rw [hl] at hg; rw [hn]
     rcases get_set_cases ho hg with ⟨_, e⟩ | hg'
     · rw [e]; exact hok'
@@ -498,7 +513,7 @@ theorem InvX.removeBook {xb xt xh} {s : St M} (h : InvX o c xb xt xh s) {n k : S
     InvX o c none xt xh (removeBook s n k) := by
   have hbk : ∀ sid x, booked (Ldlm.Core.removeBook s n k) sid x ↔ booked s sid x ∧ ¬ (x.name = n ∧ x.key = k) :=
     fun sid x => booked_removeBook s n k sid x
-  refine ⟨h.recs, h.qsize, ?_, ?_, ?_, ?_, ?_, ?_, h.xhheld, ?_⟩
+  refine ⟨h.tu, h.recs, h.qsize, ?_, ?_, ?_, ?_, ?_, ?_, h.xhheld, ?_⟩
   · intro tk tm hm; exact h.timer tk tm hm
   · intro sid x hb'
     rw [hbk] at hb'
@@ -531,7 +546,7 @@ theorem InvX.removeBook {xb xt xh} {s : St M} (h : InvX o c xb xt xh s) {n k : S
 theorem InvX.delTimer {xb xt xh} {s : St M} (h : InvX o c xb xt xh s) (tk : Str)
     (hxt : ∀ p, xt = some p → tkey p.1 p.2 = tk) :
     InvX o c xb none xh { s with timers := AMap.del s.timers tk } := by
-  refine ⟨h.recs, h.qsize, ?_, h.bh, h.u1, h.u2, h.hb, h.xhfree, h.xhheld, h.fs⟩
+  refine ⟨AMap.uniq_del _ _ h.tu, h.recs, h.qsize, ?_, h.bh, h.u1, h.u2, h.hb, h.xhfree, h.xhheld, h.fs⟩
   intro tk' tm hm
   obtain ⟨hm', hne⟩ := mem_del hm
   obtain ⟨e, hh⟩ := h.timer tk' tm hm'
@@ -542,7 +557,7 @@ theorem InvX.delTimer {xb xt xh} {s : St M} (h : InvX o c xb xt xh s) (tk : Str)
 
 theorem InvX.drop_xh {xb xt xh} {s : St M} (h : InvX o c xb xt xh s) (hnc : c.noClear = true) :
     InvX o c xb xt [] s :=
-  ⟨h.recs, h.qsize, h.timer, h.bh, h.u1, h.u2,
+  ⟨h.tu, h.recs, h.qsize, h.timer, h.bh, h.u1, h.u2,
    (fun hf => by rw [hnc] at hf; cases hf),
    (fun p hp => by cases hp), (fun p hp => by cases hp), h.fs⟩
 
